@@ -1,18 +1,18 @@
 CONSTANTS
-  NA = 3
-  LockOf0 <- L123
-  MaxOps = 2
+  NA = 2
+  LockOf0 <- L112
+  MaxOps = 3
   MaxSec = 0
   Timeouts = TRUE
   Handoff = FALSE
   Eager = TRUE
   Fifo = TRUE
-  MaxWait = 3
+  MaxWait = 2
   UniqueVals = FALSE
   Ghost = FALSE
   Mut = "none"
-  MaxDie = 0
-  EdgeFile = "edges-GenFin3x123.ndjson"
+  MaxDie = 1
+  EdgeFile = "edges-GenDie2x112.ndjson"
 INIT Init
 NEXT Next
 CHECK_DEADLOCK FALSE
